@@ -510,6 +510,9 @@ func (i *IniParser) parse(ini *ini) error {
 
 	var quotesLookup = make(map[*Option]bool)
 
+	// Options that received a default from an earlier entry of this file
+	var defaulted = make(map[*Option]bool)
+
 	for _, name := range ini.names {
 		section := ini.Sections[name]
 		groups := i.matchingGroups(name)
@@ -556,9 +559,15 @@ func (i *IniParser) parse(ini *ini) error {
 				continue
 			}
 
-			// ini value is ignored if parsed as default but defaults are prevented
+			// ini value is ignored if parsed as default but defaults are prevented,
+			// unless they were prevented by an earlier entry of this very file:
+			// repeated entries accumulate like repeated flags
 			if i.ParseAsDefaults && opt.preventDefault {
-				continue
+				if !defaulted[opt] {
+					continue
+				}
+
+				opt.preventDefault = false
 			}
 
 			pval := &inival.Value
@@ -608,6 +617,10 @@ func (i *IniParser) parse(ini *ini) error {
 
 			// Defaults from ini files take precendence over defaults from parser
 			opt.preventDefault = true
+
+			if i.ParseAsDefaults {
+				defaulted[opt] = true
+			}
 
 			// either all INI values are quoted or only values who need quoting
 			if _, ok := quotesLookup[opt]; !inival.Quoted || !ok {
